@@ -8,13 +8,14 @@ VARIABLES l, hi
 Trace == ndJsonDeserialize(TraceFile)
 tvars == <<vars, l, hi>>
 Ev == Trace[l]
-TInit == /\ now = 0 /\ hmap = Empty /\ pend = Empty /\ ent = Empty /\ cs = [t \in Threads |-> {}] /\ lastI = 0
+TInit == /\ nt = 1 /\ now = 0 /\ hmap = Empty /\ pend = Empty /\ ent = Empty /\ cs = [t \in 0..0 |-> {}] /\ lastI = 0
          /\ ev = [kind |-> "0"] /\ l = 1 /\ hi = 0 /\ TLCSet(7, 0)
-Reset == /\ now' = 0 /\ hmap' = Empty /\ pend' = Empty /\ ent' = Empty /\ cs' = [t \in Threads |-> {}] /\ lastI' = 0
+Reset == /\ nt' = Ev.nt /\ now' = 0 /\ hmap' = Empty /\ pend' = Empty /\ ent' = Empty /\ cs' = [t \in 0..(Ev.nt - 1) |-> {}] /\ lastI' = 0
          /\ ev' = [kind |-> "R"]
 Tk(x) == IF x.thr = -1 THEN NoTok ELSE [thr |-> x.thr, tok |-> x.tok]
 IIn  == [f |-> Ev.i.f, n |-> Ev.i.n, cbp |-> Ev.i.cbp, dtok |-> Ev.i.dtok]
-IOut == [thr |-> Ev.o.thr, etok |-> Ev.o.etok, hit |-> Ev.o.hit,
+\* the cache answered iff the Interest was not refused and either Data came back or the requester's in-record is gone
+IOut == [thr |-> Ev.o.thr, etok |-> Ev.o.etok, hit |-> (~IEarly(IIn) /\ (Len(Ev.o.D) > 0 \/ (Ev.o.etok # 0 /\ ~Ev.o.inrec))),
          up |-> { [face |-> Ev.o.up[k].face, thr |-> Ev.o.up[k].thr, tok |-> Ev.o.up[k].tok] : k \in 1..Len(Ev.o.up) },
          D |-> [k \in 1..Len(Ev.o.D) |-> [face |-> Ev.o.D[k].face, tok |-> Ev.o.D[k].tok]]]
 DIn  == [f |-> Ev.i.f, n |-> Ev.i.n, tk |-> Tk(Ev.i.tk)]
@@ -25,7 +26,7 @@ Step ==
      \/ Ev.ev = "I" /\ NodeInterest(IIn, IOut)
      \/ Ev.ev = "D" /\ NodeData(DIn, DOut)
      \/ Ev.ev = "T" /\ Tick
-     \/ Ev.ev = "Q" /\ Quiet([t \in Threads |-> Ev.q[t + 1]])
+     \/ Ev.ev = "Q" /\ Quiet([t \in 0..(Len(Ev.q) - 1) |-> Ev.q[t + 1]])
      \/ Ev.ev = "P" /\ UNCHANGED svars /\ ev' = [kind |-> "P"]
 TSpec == TInit /\ [][Step]_tvars
 HiWater == TLCSet(7, IF TLCGet(7) < hi THEN hi ELSE TLCGet(7))
@@ -47,8 +48,8 @@ T_N02hash     == [][IsI => NI_hash(IIn, IOut)]_tvars
 \* no Interest ever leaves on the face it came from, and a Data arrival never causes an Interest
 T_N02noI      == [][(IsD => Ev.o.nI = 0) /\ (IsI => \A k \in 1..Len(Ev.o.up) : Ev.o.up[k].face # Ev.i.f)]_tvars
 \* C08 at node level
-T_N08quiet    == [][IsQ => NQ_C08([t \in Threads |-> Ev.q[t + 1]])]_tvars
+T_N08quiet    == [][IsQ => NQ_C08([t \in 0..(Len(Ev.q) - 1) |-> Ev.q[t + 1]])]_tvars
 \* C09 at node level (through the real link services)
-T_N09scope    == [][(IsI => NI_scope(IIn, IOut) /\ (IEarly(IIn) => (Len(Ev.o.up) = 0 /\ Len(Ev.o.D) = 0)))
+T_N09scope    == [][(IsI => NI_scope(IIn, IOut) /\ (IEarly(IIn) => (Len(Ev.o.up) = 0 /\ Len(Ev.o.D) = 0 /\ ~Ev.o.inrec)))
                     /\ (IsD => ND_scope(DIn, DOut) /\ (DEarly(DIn) => Len(Ev.o.D) = 0))]_tvars
 ====
